@@ -15,7 +15,17 @@ from .refmodel.types import INTS, Cfg, RefEOF, RefReject, RefUndef, TStruct, lay
 SENTINEL = b"\xee\xed\xec\xeb"
 
 
+NOLEAD = "!nolead"
+
+
+def strip(atom_names):
+    return tuple(n for n in atom_names if n != NOLEAD)
+
+
 def build(atom_names, consts=None, lead_n0=True) -> tuple[TStruct, str]:
+    if atom_names and atom_names[0] == NOLEAD:
+        lead_n0 = False
+        atom_names = atom_names[1:]
     seq = [alphabet.by_name(n) for n in atom_names]
     st = alphabet.mk_struct(seq, lead_n0=lead_n0)
     return st, render(st, consts)
@@ -29,7 +39,7 @@ def has_eof_tail(st: TStruct) -> bool:
 
 
 def klasses(atom_names) -> list[str]:
-    return [alphabet.by_name(n).klass for n in atom_names]
+    return [alphabet.by_name(n).klass for n in strip(atom_names)]
 
 
 def cluster_tail(atom_names) -> str:
@@ -163,7 +173,7 @@ def case_json(atom_names, endian, align, ptr=None, **extra) -> dict:
 
 def features(atom_names, endian, align, reader=None, **extra) -> dict:
     ks = klasses(atom_names)
-    f = {"endian": endian, "align": align, "klasses": "/".join(ks), "nfields": len(ks)}
+    f = {"endian": endian, "align": align, "klasses": "/".join(ks), "nfields": len(ks), "nolead": bool(atom_names and atom_names[0] == NOLEAD)}
     if reader is not None:
         f["reader"] = reader
     for k in set(ks):
